@@ -79,6 +79,25 @@ def observe(ex, cs, chain, keys):
                 out[k]["sell2"] = -99
         except Exception:  # noqa: BLE001
             out[k] = {f: -2 for f in ("bid", "ask", "alive", "nh", "hb", "ha", "buy2", "sell2", "mid2")}
+    # the vector queries of the Exchange answer exactly what the books answer one by one
+    import numpy as np
+    ok = [k for k in keys if out[k]["bid"] != -2]
+    objs = [_key_obj(k, cs, chain) for k in ok]
+    try:
+        vec = {"bid": ex.bid_prices(objs), "ask": ex.ask_prices(objs),
+               "mid2": 2 * ex.mid_prices(objs), "buy2": 2 * ex.acq_prices(objs, np.ones(len(ok))),
+               "sell2": 2 * ex.liq_prices(objs, np.ones(len(ok)))}
+        sp = ex.spreads(objs)
+        for i, k in enumerate(ok):
+            for f, arr in vec.items():
+                if _p(float(arr[i])) != out[k][f]:
+                    out[k][f] = -98          # vector query disagrees with the book
+            exp_sp = -1 if out[k]["bid"] == -1 or out[k]["ask"] == -1 else out[k]["ask"] - out[k]["bid"]
+            if _p(float(sp[i])) != exp_sp and out[k]["mid2"] >= -1:
+                out[k]["mid2"] = -98
+    except Exception:  # noqa: BLE001
+        for k in ok:
+            out[k]["bid"] = -97
     return out
 
 
